@@ -6,6 +6,17 @@ import os, re, sys
 HERE = os.path.dirname(os.path.dirname(os.path.abspath(__file__)))
 
 SPEC = {
+ 'C01': dict(title='every symbol decodes back to exactly the content that was given',
+   imports='Ref.IsoData Ref.Geometry Ref.Bch Ref.MaskCond Ref.Decoder Ref.Spec Model.Bits Model.Segment Model.Version Model.Stream Model.Matrix Model.Encode Lemmas.PackLemmas Lemmas.PadLemmas Lemmas.BlockLemmas Lemmas.PlaceLemmas Lemmas.ParseLemmas Lemmas.VersionLemmas Lemmas.IdemLemmas Lemmas.ExnLemmas Lemmas.RoundTrip',
+   intro='''Decoder.decode_symbol is a reference reader written from ISO/IEC 18004 (format read, mask release, zig-zag reading, Table 9
+   de-interleaving, segment parsing), independent of the encoder model.  encode_decodes: for EVERY content (byte strings of any length, any
+   codec results) and every accepted option combination the decoder returns exactly the encoded segments, and the concatenated segment bytes
+   are the concatenated part bytes (nothing lost, added, reordered).  Text -> bytes is CPython's codec (oracle inputs of the model).''',
+   items=[('Lemmas/PackLemmas.v', ['numeric_roundtrip', 'alnum_roundtrip', 'byte_roundtrip', 'kanji_roundtrip', 'hanzi_roundtrip', 'merge_pack']),
+          ('Lemmas/ParseLemmas.v', ['write_segments_parse_qr', 'write_segments_parse_micro', 'count_fits']),
+          ('Lemmas/BlockLemmas.v', ['toints_bits_roundtrip', 'deinterleave_interleave']),
+          ('Lemmas/PlaceLemmas.v', ['read_stream_of_model']),
+          ('Lemmas/RoundTrip.v', ['data_positions_count', 'decode_of_encode_core', 'encode_decodes', 'encode_decodes_eci', 'decode_of_encode_core_sa'])]),
  'C08': dict(title='Structured Append sequences reassemble to the original message',
    imports='Ref.IsoData Ref.Spec Model.Bits Model.Segment Model.Version Model.Stream Model.Matrix Model.Encode Model.Sequence Lemmas.PackLemmas Lemmas.VersionLemmas Lemmas.SeqLemmas',
    intro='''Model/Sequence.v encode_sequence.  The statement "every chunk fits its symbol" is FALSE of the unchanged code (known finding D14
